@@ -42,6 +42,7 @@ class Ob:
     replay_src: str = ''            # file under /repo/src whose unwoven text the replay includes (informational)
     known_key: str = ''             # stable key used in known-findings.txt
     canaries: List[str] = field(default_factory=list)   # regexes of woven canaries (outside the harness file) that must be hit
+    stream_replay: str = ''         # name of a stream-level replay generator in lib/streamgen.py (runs the real lbzip2 binary)
     twin: str = ''                  # name of an explicit bounded obligation used to find a concrete input when this one fails
 
     @property
@@ -224,7 +225,13 @@ def build_and_check(ob: Ob, sc: Scratch, want_trace=False) -> Result:
     missing = [e for e in ob.expect + ob.canaries if not any(re.search(e, n) for n in names)]
     if failed:
         unk = [f for f in failed if f['status'] not in ('FAILURE',)]
-        if unk:
+        real = [f for f in failed if f['status'] == 'FAILURE']
+        if real:
+            # CBMC leaves properties it did not reach as UNKNOWN once some property has failed
+            res.failed = failed = real
+            res.status = 'fail'
+            res.reason = '; '.join(f"{f['property']}: {f['description']}" for f in failed[:4])
+        elif unk:
             res.status = 'undecided'
             res.reason = 'properties with status ' + ','.join(sorted(set(f['status'] for f in unk)))
         else:
